@@ -458,9 +458,13 @@ def translate() -> tuple[str, dict]:
     hp_text, hp_side = c11_helpers.generate(tree)
     from translate import c11_overlayrec
     ov_text, ov_side = c11_overlayrec.generate(tree)
-    L = ['(* GENERATED by translate/c11_glue.py + c11_records.py + c11_dedup.py + c11_helpers.py + c11_overlayrec.py from src/srctools/bsp.py, binformat.py, vmf.py. Do not edit. *)',
+    # loops over index tables and the rebuild order are read from the tree as written (the normalisation drops `list(...)` around
+    # a loop's iterable where that is harmless; whether it is harmless is exactly the question here)
+    from translate import c11_worklist
+    wl_text, wl_side = c11_worklist.generate(ast.parse(src_text('bsp.py')))
+    L = ['(* GENERATED by translate/c11_glue.py + c11_records.py + c11_dedup.py + c11_helpers.py + c11_overlayrec.py + c11_worklist.py from src/srctools/bsp.py, binformat.py, vmf.py. Do not edit. *)',
          'From Coq Require Import List String NArith ZArith.',
-         'From SV Require Import Fmt.BspVisRow Fmt.BspTexStrings Fmt.BspRecords Fmt.BspEntLump Fmt.BspDedup Fmt.BspFlagSplit Fmt.BspOverlayRec.',
+         'From SV Require Import Fmt.BspVisRow Fmt.BspTexStrings Fmt.BspRecords Fmt.BspEntLump Fmt.BspDedup Fmt.BspFlagSplit Fmt.BspOverlayRec Fmt.BspWorklist.',
          'Import ListNotations.', 'Open Scope string_scope.',
          f'(* runlength_decode: {r_src} *)',
          f'Definition vis_row_reader : rexp := {r_expr}.',
@@ -474,7 +478,7 @@ def translate() -> tuple[str, dict]:
          f'Definition tex_codec_same : bool := {"true" if tx["codec_same"] else "false"}.',
          f'Definition ent_cfg : entcfg := ({et["key_mode"]}, {et["value_mode"]}, {et["out_name_mode"]}, [{"; ".join(et["out_field_modes"])}]).',
          f'Definition ent_output_sep : N := {et["output_sep"]}%N.',
-         rec_text, dd_text, hp_text, ov_text, '']
+         rec_text, dd_text, hp_text, ov_text, wl_text, '']
     side = {'vis_row_reader': r_src, 'vis_row_writer': w_src, 'vis_reader_passes_cluster_count': r_passes,
             'vis_writer_checks_row_length': w_guard, 'textures': tx}
     side['ent_text'] = et
@@ -483,6 +487,7 @@ def translate() -> tuple[str, dict]:
     side.update(dd_side)
     side.update(hp_side)
     side.update(ov_side)
+    side.update(wl_side)
     return '\n'.join(L), side
 
 
